@@ -11,16 +11,17 @@ import (
 // trees (fields of the right type, sub-selections exactly on composites, fragments on the type they are
 // used under, union member fragments), optionally with one seeded ill-formed spot.
 type QGen struct {
-	R          *vh.Rng
-	D          *SchemaDesc
-	ArgSamples map[string][]string // "Type.field" -> argument texts "(x: 1)"; a field with arguments and no sample is not used
-	AliasPool  []string
-	PAlias     int // percentages
-	PFrag      int
-	PInline    int
-	PTypename  int
-	PDirective int
-	WantIll    string // "", or one of IllKinds: inject this at the first opportunity
+	R            *vh.Rng
+	D            *SchemaDesc
+	ArgSamples   map[string][]string // "Type.field" -> argument texts "(x: 1)"; a field with arguments and no sample is not used
+	AliasPool    []string            // with ClashAliases: aliases shared by different fields (what detectConflicts misses below the top level)
+	ClashAliases bool                // false: an alias is derived from the field name, so one alias always names one field
+	PAlias       int                 // percentages
+	PFrag        int
+	PInline      int
+	PTypename    int
+	PDirective   int
+	WantIll      string // "", or one of IllKinds: inject this at the first opportunity
 
 	Ill         string // what was injected ("" = well-formed)
 	frags       []string
@@ -49,11 +50,14 @@ func (g *QGen) directive() string {
 	return " " + g.R.Pick([]string{"@skip(if: false)", "@include(if: true)", "@skip(if: true)", "@include(if: false)", "@include(if: $yes)", "@skip(if: $no)"})
 }
 
-func (g *QGen) alias() string {
-	if len(g.AliasPool) > 0 && g.R.Chance(g.PAlias) {
+func (g *QGen) alias(field string) string {
+	if !g.R.Chance(g.PAlias) {
+		return ""
+	}
+	if g.ClashAliases && len(g.AliasPool) > 0 {
 		return g.R.Pick(g.AliasPool) + ": "
 	}
-	return ""
+	return "al_" + strings.TrimLeft(field, "_") + ": "
 }
 
 func (g *QGen) inject(kind string) bool {
@@ -96,7 +100,7 @@ func (g *QGen) SelSet(tn string, depth int) string {
 			if g.inject("typename-with-selection") {
 				xs = append(xs, "__typename { x }")
 			} else {
-				xs = append(xs, g.alias()+"__typename"+g.directive())
+				xs = append(xs, g.alias("__typename")+"__typename"+g.directive())
 			}
 		case k < g.PTypename+g.PInline && depth > 0:
 			xs = append(xs, g.fragment(tn, depth-1, true))
@@ -139,11 +143,11 @@ func (g *QGen) field(tn string, def *TDef, depth int) string {
 		comp := g.isComposite(f.Type)
 		if comp && depth <= 0 {
 			if g.inject("composite-without-selection") {
-				return g.alias() + f.Name + args
+				return g.alias(f.Name) + f.Name + args
 			}
 			continue
 		}
-		s := g.alias() + f.Name + args + g.directive()
+		s := g.alias(f.Name) + f.Name + args + g.directive()
 		switch {
 		case comp && g.inject("composite-without-selection"):
 		case comp:
